@@ -159,3 +159,35 @@ Fixpoint remove_key (k : text) (l : list text) : list text :=
   end.
 
 Definition keys {V} (l : list (text * V)) : list text := map fst l.
+
+(** * what "observably unchanged" means for class [c] between two stores: the
+    same record, the same structural snapshot at every depth, the same resolved
+    attributes, type name, parent, flat field table and validation verdicts *)
+Definition same_view (s s' : store) (c : cid) : Prop :=
+  lookup s' c = lookup s c /\
+  (forall d, obs d s' c = obs d s c) /\
+  (forall k, resolve s' c k = resolve s c k) /\
+  get_tname s' c = get_tname s c /\
+  get_extends s' c = get_extends s c /\
+  flat s' c = flat s c /\
+  verdicts s' c = verdicts s c.
+
+(** class [x] has field [k], of a type whose root is [R] *)
+Definition has (s : store) (x : cid) (k : fname) (R : cid) : Prop :=
+  exists t', tassoc k (fields_of s x) = Some t' /\ root_of s t' = R.
+
+(** the attribute lookup of a fresh derivative of [c] made with keywords [kw]:
+    what was requested, else a fresh _explicit_type_name = False, else what
+    [c] shows ('nillable' is copied into the new Attributes class when set) *)
+Definition fresh_lookup (s : store) (c : cid) (kw : kwargs) (fuel : nat) (k : akey) : option aval :=
+  match requested k kw with
+  | Some v => Some v
+  | None =>
+    if k =? K_EXPLICIT_TN then Some (VBool false)
+    else if k =? K_NULLABLE then
+      match resolve s c K_NULLABLE with
+      | Some v => Some v
+      | None => resolve_f fuel (cl s) c k
+      end
+    else resolve_f fuel (cl s) c k
+  end.
